@@ -1354,3 +1354,256 @@ Proof.
   - destruct (mpc s) eqn:P; try discriminate. pose proof (i_child _ Sh) as Hc. rewrite P in Hc. rewrite Hc. reflexivity.
   - destruct (mchild s); try discriminate. reflexivity.
 Qed.
+
+
+(* ---------------------------------------------------------------------------------------------- *)
+(* back to back: when a transmission ends with a packet held, the next one starts before the clock moves *)
+
+Lemma resume_now c s rem s' o : resume c s rem = Some (s', o) -> mnow s' = mnow s.
+Proof.
+  unfold resume, end_pass, commit.
+  destruct (scan (nonempty c s) rem) as [vs0 [[f rem']|]].
+  - destruct (sq_get fifo_pop (mstores s f)); [|discriminate]. intros H; injection H as <- <-. reflexivity.
+  - destruct (mtotal s =? 0)%Z.
+    + destruct (sq_get fifo_pop (mtok s)); [|discriminate]. intros H; injection H as <- <-. reflexivity.
+    + destruct (scan (nonempty c s) (pass c)) as [vs1 [[f rem']|]].
+      * destruct (sq_get fifo_pop (mstores s f)); [|discriminate]. intros H; injection H as <- <-. reflexivity.
+      * intros H; injection H as <- <-. reflexivity.
+Qed.
+
+Lemma act_now c s a s' o : mq_act c s a = Some (s', o) -> (forall t, a <> SAdvance t) -> mnow s' = mnow s.
+Proof.
+  intros A NA. destruct a as [p| |[f|]|[f|]| | | |t|incl]; cbn in A.
+  - destruct (memZ (flow p) (flows c) && (0 <=? psize p)%Z); [|discriminate]. injection A as <- <-. reflexivity.
+  - destruct (mpc s); try discriminate. eapply resume_now; eauto.
+  - destruct (sq_cb fifo_pop (mstores s f)); [|discriminate]. injection A as <- <-. reflexivity.
+  - destruct (sq_cb fifo_pop (mtok s)); [|discriminate]. injection A as <- <-. reflexivity.
+  - destruct (mpc s); try discriminate. destruct (mchild s); try discriminate. destruct (f =? f0)%Z; [|discriminate].
+    destruct (sq_take (mstores s f)) as [[[a p] q]|]; [|discriminate]. injection A as <- <-. reflexivity.
+  - destruct (mpc s); try discriminate. destruct (sq_take (mtok s)) as [[x q]|]; [|discriminate].
+    rewrite (resume_now _ _ _ _ _ A). reflexivity.
+  - destruct (mchild s); try discriminate. injection A as <- <-. reflexivity.
+  - destruct (mchild s); try discriminate. destruct (Qeq_bool dl (mnow s)); [|discriminate]. injection A as <- <-. reflexivity.
+  - destruct (mchild s); try discriminate. destruct (mpc s); try discriminate. rewrite (resume_now _ _ _ _ _ A). reflexivity.
+  - exfalso. eapply NA; eauto.
+  - injection A as <- <-. reflexivity.
+Qed.
+
+Lemma run_same_instant c : forall acts s s' tr,
+  mq_run c s acts = Some (s', tr) -> (forall t, ~ In (SAdvance t) acts) ->
+  mnow s' = mnow s /\ forall e, In e tr -> fst (fst e) = mnow s.
+Proof.
+  induction acts as [|a rest IH]; intros s s' tr H NA; cbn in H.
+  - injection H as <- <-. split; [reflexivity|intros e []].
+  - destruct (mq_act c s a) as [[s1 o]|] eqn:A; [|discriminate].
+    destruct (mq_run c s1 rest) as [[s2 tr']|] eqn:Rn; [|discriminate]. injection H as <- <-.
+    assert (N1 : mnow s1 = mnow s) by (eapply act_now; eauto; intros t E; apply (NA t); left; auto).
+    destruct (IH s1 s2 tr' Rn) as [N2 Ht]; [intros t Hin; apply (NA t); right; exact Hin|].
+    split; [congruence|]. intros e [<-|Hin]; [exact N1|]. rewrite (Ht e Hin). exact N1.
+Qed.
+
+Lemma no_start_no_tx c : 0 < rate c -> forall acts s ins outs s' tr,
+  Inv c ins outs s -> mq_run c s acts = Some (s', tr) -> child_tx s = None ->
+  (forall e, In e tr -> starts (snd e) = []) -> child_tx s' = None /\ tr_fwds tr = [].
+Proof.
+  intros R. induction acts as [|a rest IH]; intros s ins outs s' tr Iv H C0 Ns; cbn in H.
+  - injection H as <- <-. auto.
+  - destruct (mq_act c s a) as [[s1 o]|] eqn:A; [|discriminate].
+    destruct (mq_run c s1 rest) as [[s2 tr']|] eqn:Rn; [|discriminate]. injection H as <- <-.
+    pose proof (inv_step c ins outs s a s1 o R Iv A) as I1.
+    assert (So : starts o = []) by (apply (Ns (mnow s1, a, o)); left; reflexivity).
+    destruct (tx_step c ins outs s a s1 o R Iv A) as [(p & Es & _)|[(p & dl & _ & _ & E0 & _)|(_ & Ef & E1 & _)]];
+      [congruence|congruence|].
+    destruct (IH s1 _ _ s2 tr' I1 Rn) as [Cn Fn]; [congruence|intros e Hin; apply Ns; right; exact Hin|].
+    split; [exact Cn|]. unfold tr_fwds in *. cbn [flat_map snd]. rewrite Ef, Fn. reflexivity.
+Qed.
+
+Theorem back_to_back c acts1 s1 tr1 s2 o acts2 s3 tr2 t r :
+  cfg_ok c ->
+  mq_run c (mq0 c) acts1 = Some (s1, tr1) ->
+  mq_act c s1 SChildTimer = Some (s2, o) ->
+  (exists f, held_flow s2 f <> []) ->
+  mq_run c s2 acts2 = Some (s3, tr2) -> (forall t', ~ In (SAdvance t') acts2) ->
+  mq_act c s3 (SAdvance t) = Some r ->
+  exists e p, In e tr2 /\ In (OStart p) (snd e) /\ fst (fst e) = mnow s2.
+Proof.
+  intros Ok R1 A2 (f & Hf) R2 NA A3. pose proof (proj1 Ok) as R.
+  pose proof (inv_run c R acts1 (mq0 c) [] [] s1 tr1 (inv0 c) R1) as Iv1.
+  pose proof (inv_step c _ _ s1 _ s2 o R Iv1 A2) as Iv2.
+  match type of Iv2 with Inv _ ?i ?o _ => set (ins2 := i) in *; set (outs2 := o) in * end.
+  pose proof (inv_run c R acts2 s2 _ _ s3 tr2 Iv2 R2) as Iv3.
+  destruct (run_same_instant c acts2 s2 s3 tr2 R2 NA) as [_ Ht].
+  assert (Rs3 : reachable c s3).
+  { assert (Rs2 : reachable c s2) by (eapply reachable_step; [exists acts1, tr1; exact R1|exact A2]).
+    clear -Rs2 R2. revert s2 tr2 Rs2 R2. induction acts2 as [|a rest IH]; intros s2 tr2 Rs2 R2; cbn in R2.
+    - injection R2 as <- <-. exact Rs2.
+    - destruct (mq_act c s2 a) as [[sa oa]|] eqn:A; [|discriminate].
+      destruct (mq_run c sa rest) as [[sb trb]|] eqn:Rn; [|discriminate]. injection R2 as <- <-.
+      eapply IH; [eapply reachable_step; eauto|exact Rn]. }
+  destruct (Exists_dec (fun e : tev => starts (snd e) <> []) tr2) as [Ex|Nex].
+  { intros e. destruct (starts (snd e)); [right; intros H; apply H; reflexivity|left; discriminate]. }
+  - apply Exists_exists in Ex as (e & Hin & Hs). destruct (starts (snd e)) as [|p l] eqn:Es; [contradiction|].
+    exists e, p. split; [exact Hin|]. split; [|apply Ht; exact Hin].
+    unfold starts in Es. assert (Hp : In p (flat_map (fun o0 => match o0 with OStart p0 => [p0] | _ => [] end) (snd e))) by (rewrite Es; left; reflexivity).
+    apply in_flat_map in Hp as (x & Hx & Hp). destruct x as [q|q|? ?|?]; cbn in Hp; try contradiction. destruct Hp as [<-|[]]. exact Hx.
+  - exfalso.
+    assert (C2 : child_tx s2 = None).
+    { cbn in A2. destruct (mchild s1); try discriminate. destruct (Qeq_bool dl (mnow s1)); [|discriminate]. injection A2 as <- <-. reflexivity. }
+    destruct (no_start_no_tx c R acts2 s2 _ _ s3 tr2 Iv2 R2 C2) as [C3 F3].
+    { intros e Hin. destruct (starts (snd e)) eqn:Es; [reflexivity|]. exfalso. apply Nex. apply Exists_exists. exists e. split; [exact Hin|]. rewrite Es. discriminate. }
+    destruct Iv2 as [Cr2 _], Iv3 as [Cr3 _].
+    pose proof (i_cons _ _ _ _ Cr2 f) as E2. pose proof (i_cons _ _ _ _ Cr3 f) as E3.
+    rewrite F3, app_nil_r, filter_app, E2, <- app_assoc in E3. apply app_inv_head in E3.
+    destruct (work_conserving c s3 t r Ok Rs3 A3) as [(p & dl & Ch & _)|He].
+    + unfold child_tx in C3. rewrite Ch in C3. discriminate.
+    + rewrite (He f) in E3. destruct (held_flow s2 f); [apply Hf; reflexivity|discriminate].
+Qed.
+
+
+(* ---------------------------------------------------------------------------------------------- *)
+(* the sequence of transmission starts is the sequence of visits that took a packet *)
+
+Definition tr_starts (tr : list tev) : list pkt := flat_map (fun e => starts (snd e)) tr.
+Definition served (vs : list (Z * bool)) : list Z := map fst (filter snd vs).
+(* the flow run() has committed to and whose transmission has not started yet *)
+Definition pending (s : mq) : list Z :=
+  match mpc s, mchild s with
+  | PGet f _, _ => [f]
+  | _, CInit p => [flow p]
+  | _, _ => []
+  end.
+
+Lemma scan_served test rem vs r :
+  scan test rem = (vs, r) -> served (visits_of vs) = match r with Some (f, _) => [f] | None => [] end.
+Proof.
+  revert vs r. induction rem as [|[g m] t IH]; intros vs r H; cbn in H.
+  - injection H as <- <-. reflexivity.
+  - destruct m as [|m]; [eauto|]. destruct (test g).
+    + injection H as <- <-. reflexivity.
+    + destruct (scan test t) as [vs' r'] eqn:Sc. injection H as <- <-. cbn. apply (IH _ _ eq_refl).
+Qed.
+
+Lemma served_app a b : served (a ++ b) = served a ++ served b.
+Proof. unfold served. rewrite filter_app, map_app. reflexivity. Qed.
+
+Lemma resume_served c s rem s' o :
+  mchild s = CNone -> resume c s rem = Some (s', o) -> served (visits_of o) = pending s'.
+Proof.
+  intros Ch H. unfold resume in H.
+  assert (EP : forall s1 vs1, end_pass c s = Some (s1, vs1) -> served (visits_of vs1) = pending s1).
+  { intros s1 vs1 E. unfold end_pass in E. destruct (mtotal s =? 0)%Z.
+    - destruct (sq_get fifo_pop (mtok s)); [|discriminate]. injection E as <- <-. unfold pending; cbn. rewrite Ch. reflexivity.
+    - destruct (scan (nonempty c s) (pass c)) as [vs2 r2] eqn:Sc. pose proof (scan_served _ _ _ _ Sc) as Sv.
+      destruct r2 as [[f rem2]|].
+      + unfold commit in E. destruct (sq_get fifo_pop (mstores s f)); [|discriminate]. injection E as <- <-. exact Sv.
+      + injection E as <- <-. rewrite Sv. unfold pending; cbn. rewrite Ch. reflexivity. }
+  destruct (scan (nonempty c s) rem) as [vs0 r0] eqn:Sc. pose proof (scan_served _ _ _ _ Sc) as Sv.
+  destruct r0 as [[f rem0]|].
+  - unfold commit in H. destruct (sq_get fifo_pop (mstores s f)); [|discriminate]. injection H as <- <-. exact Sv.
+  - destruct (end_pass c s) as [[s1 vs1]|] eqn:E; [|discriminate]. injection H as <- <-.
+    rewrite visits_of_app, served_app, Sv. cbn. eauto.
+Qed.
+
+Lemma starts_step c ins outs s a s' o :
+  Inv c ins outs s -> mq_act c s a = Some (s', o) ->
+  pending s ++ served (visits_of o) = map flow (starts o) ++ pending s'.
+Proof.
+  intros Iv A. pose proof Iv as [C Sh]. pose proof (i_child _ Sh) as Hc.
+  destruct (runs_loop a) eqn:Ra.
+  - destruct (resume_site c ins outs s a s' o Iv A Ra) as (s0 & C0 & M0 & Rsm & _ & _ & _ & _ & Ng).
+    rewrite (resume_served c s0 _ s' o (m_child _ M0) Rsm).
+    rewrite (starts_visits o) by (intros; eapply resume_only_visits; eauto). cbn [map app].
+    assert (Ep : pending s = []).
+    { unfold pending. destruct a as [p| |[f|]|[f|]| | | |t|incl]; try discriminate; cbn in A.
+      - destruct (mpc s); try discriminate. rewrite Hc. reflexivity.
+      - destruct (mpc s); try discriminate. rewrite Hc. reflexivity.
+      - destruct (mchild s); try discriminate. destruct (mpc s); try discriminate. reflexivity. }
+    rewrite Ep. reflexivity.
+  - destruct (other_site c s a s' o A Ra) as (_ & Nv & _). rewrite (visits_none o Nv). cbn [served filter map]. rewrite app_nil_r.
+    destruct a as [p| |[f|]|[f|]| | | |t|incl]; try discriminate; cbn in A.
+    + destruct (memZ (flow p) (flows c) && (0 <=? psize p)%Z); [|discriminate]. injection A as <- <-. reflexivity.
+    + destruct (sq_cb fifo_pop (mstores s f)); [|discriminate]. injection A as <- <-. reflexivity.
+    + destruct (sq_cb fifo_pop (mtok s)); [|discriminate]. injection A as <- <-. reflexivity.
+    + destruct (mpc s) as [|g rem|rem| |] eqn:P; try discriminate. destruct (mchild s) eqn:Ch; try discriminate.
+      destruct (Z.eqb_spec f g) as [<-|N]; [|discriminate].
+      destruct (sq_take (mstores s f)) as [[[a p] q]|] eqn:T; [|discriminate]. injection A as <- <-.
+      pose proof (fifo_held_take _ _ _ _ T) as Hh.
+      assert (Fp : flow p = f).
+      { apply (held_in_ins c ins outs s f p C). unfold held_flow. apply in_or_app. right. rewrite Hh. left. reflexivity. }
+      unfold pending; cbn. rewrite P, Fp. reflexivity.
+    + destruct (mchild s) eqn:Ch; try discriminate. injection A as <- <-.
+      unfold pending; cbn. rewrite ?Ch. destruct (mpc s); try discriminate; reflexivity.
+    + destruct (mchild s) eqn:Ch; try discriminate. destruct (Qeq_bool dl (mnow s)); [|discriminate]. injection A as <- <-.
+      unfold pending; cbn. rewrite ?Ch. destruct (mpc s); try discriminate; reflexivity.
+    + destruct (urgent c s); [discriminate|]. destruct (Qlt_le_dec (mnow s) t); [|discriminate].
+      assert (E : o = [] /\ mpc s' = mpc s /\ mchild s' = mchild s).
+      { destruct (mchild s); try (injection A as <- <-; repeat split; reflexivity).
+        destruct (Qle_bool t dl); [|discriminate]. injection A as <- <-. repeat split; reflexivity. }
+      destruct E as (-> & E1 & E2). unfold pending. rewrite E1, E2. reflexivity.
+    + injection A as <- <-. reflexivity.
+Qed.
+
+Theorem starts_follow_visits c : 0 < rate c -> forall acts s ins outs s' tr,
+  Inv c ins outs s -> mq_run c s acts = Some (s', tr) ->
+  pending s ++ served (tr_visits tr) = map flow (tr_starts tr) ++ pending s'.
+Proof.
+  intros R. induction acts as [|a rest IH]; intros s ins outs s' tr Iv H; cbn in H.
+  - injection H as <- <-. cbn. rewrite app_nil_r. reflexivity.
+  - destruct (mq_act c s a) as [[s1 o]|] eqn:A; [|discriminate].
+    destruct (mq_run c s1 rest) as [[s2 tr']|] eqn:Rn; [|discriminate]. injection H as <- <-.
+    pose proof (inv_step c ins outs s a s1 o R Iv A) as I1.
+    unfold tr_visits, tr_starts. cbn [flat_map snd]. fold (tr_visits tr'). fold (tr_starts tr').
+    rewrite served_app, map_app, app_assoc, (starts_step c ins outs s a s1 o Iv A), <- !app_assoc.
+    f_equal. apply (IH s1 _ _ s2 tr' I1 Rn).
+Qed.
+
+(* ---------------------------------------------------------------------------------------------- *)
+(* statements for executions from the initial state *)
+
+Theorem tx_wf_run0 c acts s tr : 0 < rate c -> mq_run c (mq0 c) acts = Some (s, tr) -> tx_wf c None tr.
+Proof. intros R H. apply (tx_wf_run c R acts (mq0 c) [] [] s tr (inv0 c) H). Qed.
+
+Theorem visits_run0 c acts s tr :
+  0 < rate c -> brk c = false -> mq_run c (mq0 c) acts = Some (s, tr) ->
+  exists k, walk (pass c) (pass c) (tr_visits tr) = Some k /\ norm (pass c) k = norm (pass c) (cursor c s).
+Proof. intros R B H. apply (visits_run c R B acts (mq0 c) [] [] s tr (pass c) (inv0 c) H). reflexivity. Qed.
+
+Theorem starts_follow_visits0 c acts s tr :
+  0 < rate c -> mq_run c (mq0 c) acts = Some (s, tr) ->
+  served (tr_visits tr) = map flow (tr_starts tr) ++ pending s.
+Proof. intros R H. apply (starts_follow_visits c R acts (mq0 c) [] [] s tr (inv0 c) H). Qed.
+
+Theorem work_conserving0 c acts s tr t x :
+  cfg_ok c -> mq_run c (mq0 c) acts = Some (s, tr) -> mq_act c s (SAdvance t) = Some x ->
+  (exists p dl, mchild s = CTx p dl /\ mcur s = Some p /\ mnow s < dl) \/ (forall f, held_flow s f = []).
+Proof. intros Ok H A. apply (work_conserving c s t x Ok); [exists acts, tr; exact H|exact A]. Qed.
+
+Theorem never_spins0 c acts s tr : cfg_ok c -> mq_run c (mq0 c) acts = Some (s, tr) -> mpc s <> PSpin.
+Proof. intros Ok H. apply (never_spins c s Ok). exists acts, tr. exact H. Qed.
+
+Theorem drained0 c acts s tr :
+  cfg_ok c -> mq_run c (mq0 c) acts = Some (s, tr) -> urgent c s = false -> (forall p dl, mchild s <> CTx p dl) ->
+  (forall f, held_flow s f = []) /\ (forall f, mqc s f = 0%Z /\ mqb s f = 0%Z) /\ mcur s = None /\
+  (forall f, filter (is_flow f) (tr_puts tr) = filter (is_flow f) (tr_fwds tr)) /\ mpc s <> PSpin.
+Proof.
+  intros Ok H U Nd. assert (Rs : reachable c s) by (exists acts, tr; exact H).
+  destruct (drained c s Ok Rs U Nd) as (He & Hq & Hc). split; [exact He|]. split; [exact Hq|]. split; [exact Hc|].
+  split; [|apply (never_spins c s Ok Rs)].
+  intros f. destruct (run_conserves c acts s tr (proj1 Ok) H) as [Hcv _]. rewrite (Hcv f), (He f), app_nil_r. reflexivity.
+Qed.
+
+Theorem monitor_samples0 c acts s tr incl :
+  0 < rate c -> mq_run c (mq0 c) acts = Some (s, tr) ->
+  mq_act c s (SSample incl) =
+    Some (s, [OSample (map (fun f => let l := if incl then held_flow s f else waiting_flow s f in
+                                     (f, Z.of_nat (length l), sumsz l)) (dflows c))]).
+Proof.
+  intros R H. cbn [mq_act]. do 4 f_equal. apply map_ext. intros f.
+  apply (monitor_samples c s incl f R). exists acts, tr. exact H.
+Qed.
+
+Theorem visit_meaning0 c acts s tr a s' o f b :
+  0 < rate c -> mq_run c (mq0 c) acts = Some (s, tr) -> mq_act c s a = Some (s', o) -> In (OVisit f b) o ->
+  if b then exists x rest, items (mstores s f) = x :: rest /\ get (mstores s' f) = GGranted x /\ items (mstores s' f) = rest
+  else items (mstores s f) = [] /\ held_flow s f = [].
+Proof. intros R H. apply (visit_meaning c s a s' o f b R). exists acts, tr. exact H. Qed.
